@@ -165,7 +165,7 @@ def refine(V, prop, drv: RefDriver, run, li: int, boot_state: dict, check_stop: 
             m = measures.get(it)
             if m is None:
                 continue
-            if abs(m - thr) <= GUARD * thr:
+            if abs(m - thr) <= GUARD * thr + 1e-12 * max(1.0, float(np.max(np.abs(drv.ref.V)))):
                 V.probe("guard_band_inconclusive")
                 continue
             last = j == len(its) - 1
@@ -200,6 +200,11 @@ def refine_pi(V, prop, drv: RefDriver, run, li: int, boot_state: dict):
         Vref = ref.evaluate(ref.pol, ref.V0.copy() if ref.reset else ref.V)
         ref.V = Vref
         got = arrs["values"]
+        if ref.ambiguous:
+            # an evaluation stop decision fell inside the guard band: the number of evaluation
+            # sweeps may legitimately differ by rounding - nothing further is decidable here
+            V.probe("guard_band_inconclusive")
+            return
         if got.shape != Vref.shape or not np.allclose(got, Vref, rtol=0, atol=1e-7 * max(1.0, float(np.max(np.abs(Vref))))):
             V.bad(f"{prop}:pi_values_not_reference", f"iteration {it}: evaluated values differ from the documented truncated evaluation (max |diff| {float(np.max(np.abs(got - Vref))):.3g})")
             return
